@@ -81,12 +81,16 @@ func (w WLCase) build() (*spg.WLRecipe, error) {
 		// a caller-written separator function that returns nothing or a
 		// hyphen, one bit of entropy
 		cr := spg.CharRecipe{Length: 1, AllowChars: "x-"}
+		sepStr := "-"
+		if w.Sep.Char != "" {
+			sepStr = w.Sep.Char // (e.g. a very long separator)
+		}
 		r.SeparatorFunc = func() (string, spg.FloatE) {
 			p, err := cr.Generate()
 			if err != nil || p.String() == "x" {
 				return "", 1
 			}
-			return "-", 1
+			return sepStr, 1
 		}
 	default:
 		f, ok := presetFuncs[w.Sep.Kind]
@@ -114,6 +118,9 @@ func (w WLCase) sepModel() (vals []string, entropy float64, retry bool) {
 		m := presetModel["SFDigits1"]
 		cr = &m
 	case "customMixed":
+		if w.Sep.Char != "" {
+			return []string{w.Sep.Char, ""}, 1, false
+		}
 		return []string{"-", ""}, 1, false
 	case "sf", "custom0":
 		cr = w.Sep.Recipe
